@@ -58,6 +58,9 @@ inductive Step where
   | enroll (l : Nat)            -- a foreign goroutine calls Register/Enroll: accepted unless the engine has shut down;
                                 -- a descriptor is duplicated, the balancer picks loop l, Trigger(register + result callback)
   | setFlag                     -- engine.stop: everything has stopped, the in-shutdown flag is set
+  | reorder (l : Nat) (fd : Nat) -- hand-overs made by different goroutines reach the queue of loop l in an order of their
+                                -- own: a pending registration moves to the head of the queue (nothing is created,
+                                -- closed or registered by this step)
   deriving Repr
 
 def setLoop (s : State) (l : Nat) (x : Loop) : State := { s with loops := s.loops.set l x }
@@ -130,6 +133,13 @@ def step (s : State) : Step → State
       else s
     | none => s
   | .setFlag => if !s.acceptorRunning && s.loops.all (!·.running) then { s with inShutdown := true } else s
+  | .reorder l fd =>
+    match s.loops[l]? with
+    | some x =>
+      if Task.register fd ∈ x.queue then
+        setLoop s l { x with queue := .register fd :: x.queue.erase (.register fd) }
+      else s
+    | none => s
 
 def run (s : State) : List Step → State
   | [] => s
